@@ -42,6 +42,7 @@ def required(tier):
         "filter.reject_shift.glr": 300,
         "filter.precedence.lr": 300,
         "filter.precedence.glr": 300,
+        "filter.partial_marks.lr": 300,
         "completeness.reductions_checked": 5000,
         "completeness.shifts_checked": 1000,
         "cover._call_dynamic_filter": 8,
@@ -269,6 +270,7 @@ def one_table(ctx):
                     continue
                 if ka == "ret":
                     completeness_lr(ctx, case, f3.log, va)
+    partial_marks(ctx, rng, ops, exprs, grammar_text)
     # --- precedence-encoding filter == static priorities == climbing --------------
     alld = {o: True for o in ops}
     text = grammar_text(rng, table, alld, alld, static=False, dynq=dynq)
@@ -325,6 +327,48 @@ def one_table(ctx):
                 ctx.violation("precedence-filter-differs-from-static-priorities", case, "GLR with the precedence filter gives %s, precedence climbing %s" % (norm(gp.call_actions(a.forest[0])), want))
             else:
                 completeness_glr(ctx, case, f5.log, a.forest)
+
+
+def partial_marks(ctx, rng, ops, exprs, grammar_text):
+    """Only the terminals, or only the productions, are marked dynamic.  With one left
+    associative level the decision "do not shift" is enough (the unmarked reduction is
+    taken), with one right associative level "do not reduce" is: the conflicts count as
+    dynamically resolved, the LR parser constructs and gives the conventional tree."""
+    for marks, assoc in (("terminals", "left"), ("productions", "right")):
+        t2 = {o: (1, assoc) for o in ops}
+        dynp2 = {o: marks == "productions" for o in ops}
+        dynt2 = {o: marks == "terminals" for o in ops}
+        text2 = grammar_text(rng, t2, dynp2, dynt2, static=False, dynq=False)
+
+        def decide2(context, from_state, to_state, action, production, subresults, assoc=assoc):
+            if action is SHIFT:
+                la = (context.token if context.token is not None else context.token_ahead).symbol
+                reds = [a for a in from_state.actions.get(la, []) if a.action is REDUCE and len(a.prod.rhs) == 3 and a.prod.rhs[1].name.startswith("op")]
+                return not (reds and assoc == "left")
+            if len(production.rhs) != 3 or not production.rhs[1].name.startswith("op"):
+                return True
+            la = context.token_ahead.symbol.name
+            return not (la.startswith("op") and assoc == "right")
+
+        case0 = {"grammar": text2, "filter": "partial-marks:" + marks, "parser": "LR"}
+        try:
+            f7 = Filter(decide2)
+            lp2 = pgx.lr(pgx.grammar(text2), dynamic_filter=f7, prefer_shifts=False, prefer_shifts_over_empty=False)
+        except Exception as e:  # noqa: BLE001
+            ctx.case((text2, "partial-build"), True)
+            ctx.violation("dynamic-grammar-does-not-construct:" + type(e).__name__, case0, "every conflict involves a dynamic %s but the LR parser with a filter did not construct: %s" % (marks[:-1], str(e)[:200]))
+            continue
+        for x in exprs[:6]:
+            want = climb(list(strip_layout(x)), t2)
+            case = dict(case0, expr=x, table={k: list(v) for k, v in t2.items()})
+            del f7.log[:]
+            k, v = pgx.outcome(lp2.parse, x)
+            ctx.count("filter.partial_marks.lr")
+            if discipline(ctx, case, f7.log, lp2.grammar):
+                if k != "ret":
+                    ctx.violation("partial-marks-filter-lr-fails", case, "%s %s" % (k, str(v)[:200]))
+                elif norm(v) != want:
+                    ctx.violation("partial-marks-filter-differs-from-static-priorities", case, "LR gives %s, precedence climbing %s" % (norm(v), want))
 
 
 def discipline(ctx, case, log, pg):
